@@ -85,3 +85,46 @@ def C19_second_write_trailing_blank(case, params):
     a = mp.write_problem(pr, "s1.i", rt.VERS[W]).split("\n")
     b = mp.write_problem(pr, "s2.i", rt.VERS[W]).split("\n")
     return len(a) == len(b) and all(x.rstrip() == y.rstrip() for x, y in zip(a, b))
+
+
+def _expand_imp_cards(text, width):
+    """the text with every data-block IMP card that contains a shortcut rewritten with plain values
+    -> (text, changed?)"""
+    import spec
+    lines = text.split("\n")
+    sp = spec.split_file(text, width)
+    blocks = sp["blocks"] + [[]] * (3 - len(sp["blocks"]))
+    changed = False
+    for card in blocks[2]:
+        toks = spec.tokens(card.text)
+        if not toks or not toks[0].startswith("IMP:") and not toks[0].startswith("*IMP:"):
+            continue
+        if not any(spec._SC.match(t) for t in toks[1:]):
+            continue
+        vals = spec.expand_shortcuts(toks[1:])
+        if any(not hasattr(v, "numerator") for v in vals):
+            continue
+        new = toks[0].lower() + " " + " ".join(("%g" % float(v)) for v in vals)
+        # replace the physical lines of the card (comments inside the card are dropped with it)
+        for i in range(len(lines) - len(card.lines) + 1):
+            if [l[:width].rstrip("\r") for l in lines[i:i + len(card.lines)]] == card.lines:
+                lines[i:i + len(card.lines)] = [new]
+                changed = True
+                break
+    return "\n".join(lines), changed
+
+
+def C19_imp_shortcut_observed(case, params):
+    """F-C19-imp-echo-after-observation: a data-block IMP card spelled with a shortcut, importances edited away from
+    and back to the values of the card, and an observation in between.  Feature: a data-block IMP card with a
+    shortcut; ablation: the same card spelled without shortcuts."""
+    import rt
+    if case.get("kind") != "observation-changed-output":
+        return False
+    c = case["case"]
+    if not any(e.get("kind") == "importance" for e in case.get("prog", [])):
+        return False
+    text2, changed = _expand_imp_cards(c["text"], c["width"])
+    if not changed:
+        return False
+    return rt.c19_check(dict(c, text=text2), case.get("prog", [])) is None
